@@ -58,6 +58,7 @@ class Ctx:
         self.P = load_scala()
         self.encoded = set()
         self.queue = []
+        self.fcache = {}
 
     def defer(self, key, text, solvers, timeout, handler):
         self.queue.append((('q', len(self.queue), str(key)), text, solvers, timeout, handler))
@@ -463,7 +464,9 @@ def sqrt_contracts(R, ctx, bound):
                 cls = 'engine-allele-pair-sqrt-wrong (model-level)'
             if not bad:
                 raise HarnessError(f'{name}: counterexample i={iv} does not reproduce')
-            st = R.finding(cls, what, {'kind': 'sqrt', 'side': key[0], 'i': iv})
+            if cls not in ctx.fcache:
+                ctx.fcache[cls] = R.finding(cls, what, {'kind': 'sqrt', 'side': key[0], 'i': iv})
+            st = ctx.fcache[cls]
             R.ob(name, st, dt, {'i': iv}, nontrivial=True)
         elif r == 'error':
             raise HarnessError(f'{name}: solver error {str(model)[:300]}')
@@ -620,7 +623,10 @@ def scala_bijection(R, ctx, bound):
                     rp = {'kind': 'scala-order', 'vals': vals}
                 if not bad:
                     raise HarnessError(f'{name}: counterexample does not reproduce on the concrete Scala evaluation: {what}')
-                st = R.finding('engine-genotype-index-not-bijective-or-not-vcf-order (model-level)', what, rp)
+                cls3 = 'engine-genotype-index-not-bijective-or-not-vcf-order (model-level)'
+                if cls3 not in ctx.fcache:
+                    ctx.fcache[cls3] = R.finding(cls3, what, rp)
+                st = ctx.fcache[cls3]
                 R.ob(name, st, dt, {'what': what}, nontrivial=True)
             elif r == 'error':
                 raise HarnessError(f'{name}: solver error {str(model)[:300]}')
